@@ -37,7 +37,6 @@ open Jedi.Gen.AsmX86
 /-! ## symbolic execution, cut into pieces -/
 
 set_option maxHeartbeats 1600000 in
-set_option maxRecDepth 100000 in
 theorem sqrx768_part0 (s : State) (pr pa : Word)
     (hr : Buf s pr 12 true) (ha : Buf s pa 6 false) (hra : X86.Disjoint pr 12 pa 6)
     (hstk : Stack s 6) (hrs : OffStack s 6 pr 12) (has : OffStack s 6 pa 6) {a0 a1 a2 a3 a4 m8h m8l m10h m10l m12h m12l m16h m16l m18h m18l m22h m22l m26h m26l : Word} {t11 t13 t14 t17 t19 t20 t21 t23 t24 t27 : ArithRes}
@@ -72,7 +71,6 @@ theorem sqrx768_part0 (s : State) (pr pa : Word)
   x86_sym [hst, hpc, hdi, hsi, sub8x3_toNat, sub8x4_toNat, sub8x5_toNat, sub8x6_toNat, sub8x7_toNat, mulLo_fold, mulHi_fold, logic, BitVec.xor_self, ← ha0, ← ha1, ← ha2, ← ha3, ← ha4, ← hm8l, ← hm8h, ← hm10l, ← hm10h, ← ht11, ← hm12l, ← hm12h, ← ht13, ← ht14, ← hm16l, ← hm16h, ← ht17, ← hm18l, ← hm18h, ← ht19, ← ht20, ← ht21, ← hm22l, ← hm22h, ← ht23, ← ht24, ← hm26l, ← hm26h, ← ht27]
 
 set_option maxHeartbeats 1600000 in
-set_option maxRecDepth 100000 in
 theorem sqrx768_part1 (s : State) (pr pa : Word)
     (hr : Buf s pr 12 true) (ha : Buf s pa 6 false) (hra : X86.Disjoint pr 12 pa 6)
     (hstk : Stack s 6) (hrs : OffStack s 6 pr 12) (has : OffStack s 6 pa 6) {a0 a1 a2 a3 a4 a5 m8l m26h m26l m28h m28l m31h m31l m35h m35l m39h m39l m41h m41l m44h m44l m47h m47l m51h m51l : Word} {t11 t17 t21 t23 t24 t27 t29 t30 t32 t33 t34 t36 t37 t40 t42 t43 t45 t46 t48 t49 t50 t52 t54 : ArithRes}
@@ -110,7 +108,6 @@ theorem sqrx768_part1 (s : State) (pr pa : Word)
   x86_sym [sub8x3_toNat, sub8x4_toNat, sub8x5_toNat, sub8x6_toNat, sub8x7_toNat, mulLo_fold, mulHi_fold, logic, BitVec.xor_self, ← ha0, ← ha1, ← ha2, ← ha3, ← ha4, ← ha5, ← hm28l, ← hm28h, ← ht29, ← ht30, ← hm31l, ← hm31h, ← ht32, ← ht33, ← ht34, ← hm35l, ← hm35h, ← ht36, ← ht37, ← hm39l, ← hm39h, ← ht40, ← hm41l, ← hm41h, ← ht42, ← ht43, ← hm44l, ← hm44h, ← ht45, ← ht46, ← hm47l, ← hm47h, ← ht48, ← ht49, ← ht50, ← hm51l, ← hm51h, ← ht52, ← ht54]
 
 set_option maxHeartbeats 1600000 in
-set_option maxRecDepth 100000 in
 theorem sqrx768_part2 (s : State) (pr pa : Word)
     (hr : Buf s pr 12 true) (ha : Buf s pa 6 false) (hra : X86.Disjoint pr 12 pa 6)
     (hstk : Stack s 6) (hrs : OffStack s 6 pr 12) (has : OffStack s 6 pa 6) {a0 a1 a2 a3 m8l m44h m58h m58l m64h m64l m72h m72l m80h m80l : Word} {t11 t17 t27 t40 t43 t46 t49 t52 t54 t57 t60 t63 t65 t66 t68 t71 t73 t74 t76 t79 t81 t82 : ArithRes}
@@ -143,7 +140,6 @@ theorem sqrx768_part2 (s : State) (pr pa : Word)
   x86_sym [sub8x3_toNat, sub8x4_toNat, sub8x5_toNat, sub8x6_toNat, sub8x7_toNat, mulLo_fold, mulHi_fold, logic, BitVec.xor_self, ← ha0, ← ha1, ← ha2, ← ha3, ← ht57, ← hm58l, ← hm58h, ← ht60, ← ht63, ← hm64l, ← hm64h, ← ht65, ← ht66, ← ht68, ← ht71, ← hm72l, ← hm72h, ← ht73, ← ht74, ← ht76, ← ht79, ← hm80l, ← hm80h, ← ht81, ← ht82]
 
 set_option maxHeartbeats 1600000 in
-set_option maxRecDepth 100000 in
 theorem sqrx768_part3 (s : State) (pr pa : Word)
     (hr : Buf s pr 12 true) (ha : Buf s pa 6 false) (hra : X86.Disjoint pr 12 pa 6)
     (hstk : Stack s 6) (hrs : OffStack s 6 pr 12) (has : OffStack s 6 pa 6) {a4 a5 m58l m80h m80l m88h m88l m96h m96l : Word} {t49 t52 t54 t60 t65 t68 t73 t76 t81 t82 t84 t87 t89 t90 t92 t95 t97 t98 t100 : ArithRes}
@@ -176,7 +172,6 @@ theorem sqrx768_part3 (s : State) (pr pa : Word)
 /-! ## the theorem -/
 
 set_option maxHeartbeats 1600000 in
-set_option maxRecDepth 100000 in
 /-- `void bmi2_adx_bigint_768_square(res, a)`: the twelve limbs of `res` are `a²` -/
 theorem bmi2_adx_bigint_768_square_run (s : State) (pr pa : Word)
     (hst : s.status = .running) (hpc : s.pc = 0) (hdi : s.rdi = pr) (hsi : s.rsi = pa)
@@ -298,14 +293,14 @@ theorem bmi2_adx_bigint_768_square_run (s : State) (pr pa : Word)
   simp only [OffStack] at hrs
   clear hq0 hq1 hq2 hq3 hall
   refine ⟨⟨rfl, ?_, ?_, ?_, ?_, ?_, ?_, ?_, ?_⟩, ?_, ?_⟩
-  · first | rfl | simp only
-  · first | rfl | simp only
-  · first | rfl | simp only
-  · first | rfl | simp only
-  · first | rfl | simp only
-  · first | rfl | simp only
-  · first | rfl | simp only
-  · first | rfl | simp only
+  · rfl
+  · rfl
+  · rfl
+  · rfl
+  · rfl
+  · rfl
+  · rfl
+  · rfl
   · x86_mem
     have em8 := mul_spec a1 a0; rw [← hm8l, ← hm8h] at em8
     have em10 := mul_spec a2 a0; rw [← hm10l, ← hm10h] at em10
